@@ -55,4 +55,4 @@ static bool replay(const std::string &text) {
     if (!r.empty()) printf("[replay] key=%s\n", r.c_str());
     return r.empty();
 }
-int main(int argc, char **argv) { return vp::main_(argc, argv, {run, replay}); }
+VP_MAIN(run, replay)
